@@ -91,6 +91,8 @@ def strategy(draw, tier="quick"):
         kinds = [k for k in RAGGED[fmt] if _ragged_applicable(k, cell, time)]
         if kinds:
             case["ragged"] = {"after": draw(st.integers(1, len(comp))), "kind": draw(st.sampled_from(kinds))}
+            if fmt == "h5" and draw(st.booleans()):
+                case["ragged"]["reopen_append"] = True   # the ragged write is the first one after re-opening with mode='a'
     elif mode == "crash" and fmt in LIVE:
         case["crash"] = {"at": draw(st.integers(1, 2 * len(comp))), "how": draw(st.sampled_from(["kill", "_exit"]))}
         if fmt == "h5" and draw(st.booleans()) and len(comp) > 1:
@@ -129,6 +131,9 @@ def enumerate_cases(tier):
                     for after in (1, 2, 3):
                         yield {"fmt": fmt, "na": 10, "comp": [2, 1, 3], "cell": c, "time": t, "tric": False, "seed": 0,
                                "ragged": {"after": after, "kind": kind}}
+                        if fmt == "h5":
+                            yield {"fmt": fmt, "na": 10, "comp": [2, 1, 3], "cell": c, "time": t, "tric": False, "seed": 0,
+                                   "ragged": {"after": after, "kind": kind, "reopen_append": True}}
     n = 4 if tier == "quick" else 6
     for fmt in LIVE + ["h5a"]:
         for comp in compositions(n):
@@ -233,6 +238,10 @@ def run_case(case):
                 accepted = hi
                 if rag and rag["after"] == k + 1:
                     kind = rag["kind"]
+                    if rag.get("reopen_append") and fmt == "h5":
+                        fh.close()
+                        fh = _open_w(inc, fmt, "a")
+                        labels.append("ragged-after-reopen-append")
                     lo2, hi2 = hi, min(n, hi + 2) if hi < n else hi
                     if hi2 == lo2:  # ragged attempt after the last frame: re-use the last frames as payload
                         lo2, hi2 = max(0, n - 2), n
